@@ -19,6 +19,7 @@ let stage_view (st : stage) (param : int option) (below : nat list) : nat list =
   | "skip" -> (match param with None -> [] | Some c -> skipn (i2n c) below)
   | "filter" -> List.filter_map (fm_filter (int_of_string st.arg)) below
   | "filter_map" -> List.filter_map (fm_filter_map (int_of_string st.arg)) below
+  | "sort" -> List.map i2n (List.sort compare (List.map n2i below))
   | _ -> failwith "stage_view"
 
 (* build one stage from the initial values handed to it; returns (values it hands on, values it
@@ -54,6 +55,17 @@ let build_stage (st : stage) (batched : bool) (vs : nat list) : nat list option 
     (Some v, (fun () -> v),
      mk_sim ~batched ~has_param:false ~static_param:true ~st0 ~on_diff:(filter_on_diff f)
        ~on_param:(fun s _ -> (s, None)))
+  | "sort" ->
+    (* values are distinct in chains with a sort stage, so the comparison has no ties and the answer
+       of imbl's (unstable) sort is the unique sorted order: the oracle argument is computed here *)
+    let cmp = cmp_of "sort" in
+    let (v, st0) = sort_init (insertion_sort cmp (enumerate_from O vs)) in
+    let on_diff st d =
+      let ans = (match sort_oracle_input st d with None -> [] | Some input -> insertion_sort cmp input) in
+      if sort_truncate_misaligned st d then add_class "sort_truncate_misaligned";
+      sort_on_diff cmp st d ans in
+    (Some v, (fun () -> v),
+     mk_sim ~batched ~has_param:false ~static_param:true ~st0 ~on_diff ~on_param:(fun s _ -> (s, None)))
   | _ -> failwith ("bad stage " ^ st.kind)
 
 type tapinfo = { upto : int; mutable view : nat list; mutable app_ok : bool }
